@@ -607,6 +607,15 @@ func (e *kvElection) becomeFollower() bool {
 		}
 	}
 
+	// The term ends here. Its context is cancelled first, so that work bound to
+	// it never observes IsLeader()==false while still running, and so that
+	// nothing but the bookkeeping below separates the cleared flag from the
+	// OnDemote callback the caller is about to invoke.
+	if e.termCancel != nil {
+		e.termCancel()
+		e.termCancel = nil
+	}
+
 	wasLeader := e.isLeader.Load()
 	e.isLeader.Store(false)
 	e.state.Store(StateFollower)
@@ -615,11 +624,6 @@ func (e *kvElection) becomeFollower() bool {
 	if wasLeader {
 		e.recordLeaderDuration()
 		e.leaderStartTime.Store(time.Time{})
-	}
-
-	if e.termCancel != nil {
-		e.termCancel()
-		e.termCancel = nil
 	}
 
 	e.recordTransition(fromState, StateFollower)
